@@ -354,11 +354,11 @@ def install_fetch_fake() -> dict:
 # ---------------------------------------------------------------------------------------------- configurations
 SOCKETS = ("pipe", "unix", "tcp", "shm")
 CAPS = ("none", "tiny", "large")
-COMPS = ("off", "zstd", "gzip")
+COMPS = ("off", "zstd", "gzip", "gzips")   # gzip: the client accepts only gzip; gzips: the server negotiates only gzip
 EXTS = ("off", "low")
 LARGE_CAP = 8 * 1024 * 1024
 EXT_THRESHOLD = 64
-TINY_SLACK = 64
+TINY_SLACK = 128
 
 
 def http_configs() -> list[str]:
@@ -729,13 +729,25 @@ class HttpWorld:
         else:
             # tiny-but-legal: the largest hard-capped response this script produced without a cap (+ slack: sealed
             # state tokens vary by a few bytes between runs, and Arrow pads to 8) -- 1 when nothing is hard-capped
+            if (ext, json.dumps(xs)) not in self.tiny and cap_override is None:
+                self.run(f"http:none:off:{ext}", calls, names, xs)           # measuring run (not recorded as a case)
             measured = self.tiny.get((ext, json.dumps(xs)), 0)
             max_bytes = cap_override if cap_override is not None else (measured + TINY_SLACK if measured else 1)
         level = None if comp == "off" else 3
         server = RpcServer(self.proto, self.impl, server_id=SERVER_ID, external_location=server_ext)
         # the HTML pages are not part of the RPC surface (and rendering them dominates app construction)
-        inner = make_sync_client(server, max_response_bytes=max_bytes, compression_level=level, enable_landing_page=False,
-                                 enable_describe_page=False, enable_not_found_page=False)
+        saved = os.environ.get("VGI_HTTP_DISABLE_ZSTD")
+        if comp == "gzips":
+            os.environ["VGI_HTTP_DISABLE_ZSTD"] = "1"        # the server-side switch: zstd neither produced nor accepted
+        try:
+            inner = make_sync_client(server, max_response_bytes=max_bytes, compression_level=level, enable_landing_page=False,
+                                     enable_describe_page=False, enable_not_found_page=False)
+        finally:
+            if comp == "gzips":
+                if saved is None:
+                    os.environ.pop("VGI_HTTP_DISABLE_ZSTD", None)
+                else:
+                    os.environ["VGI_HTTP_DISABLE_ZSTD"] = saved
         client = _RecordingClient(inner, accept="gzip" if comp == "gzip" else None)
         rec = Recorder()
         status, exc = "ok", None
@@ -748,7 +760,7 @@ class HttpWorld:
         finally:
             if storage is not None:
                 _LIVE_STORES.remove(storage)
-        if cap == "none":
+        if cap == "none" and comp != "gzips":      # (a gzip-only server currently fails stream continuations: nothing to measure)
             self.tiny[(ext, json.dumps(xs))] = max(self.tiny.get((ext, json.dumps(xs)), 0), capped_max(client.sizes, self.methods))
         return {"calls": rec.export(), "status": status, "exc": repr(exc) if exc else "", "server_died": [],
                 "cap": max_bytes, "encodings": sorted(client.encodings), "requests": len(client.sizes),
